@@ -1455,3 +1455,125 @@ Example before_fix_accepted_but_rejected :
   /\ client_accepts toy_ecrecover 1090 digest' (toy_sign 1090 [1; 2; 3]) = true.
 Proof. vm_compute. repeat split. Qed.
 
+
+(* ------------------------------------------------------------------ call histories on one handle *)
+Lemma run_history_acc calls : forall log,
+  fold_left handle_step calls log = log ++ map call_client_preimage calls.
+Proof.
+  induction calls as [|c t IH]; intros log; cbn [fold_left map].
+  - now rewrite app_nil_r.
+  - rewrite IH. unfold handle_step. now rewrite <- app_assoc.
+Qed.
+(* a history is the map of the pure per-call function *)
+Lemma history_is_map calls : run_history calls = map call_client_preimage calls.
+Proof. unfold run_history. now rewrite run_history_acc. Qed.
+Lemma history_app a b : run_history (a ++ b) = run_history a ++ run_history b.
+Proof. now rewrite !history_is_map, map_app. Qed.
+(* the answer to a call does not depend on the calls made before or after it *)
+Lemma history_nth before c after :
+  nth_error (run_history (before ++ c :: after)) (length before) = Some (call_client_preimage c).
+Proof.
+  rewrite history_is_map, map_app. cbn [map].
+  rewrite nth_error_app2 by (rewrite map_length; lia).
+  rewrite map_length, Nat.sub_diag. reflexivity.
+Qed.
+
+(* for every call within the property's domain the client hashes the contract's bytes *)
+Lemma call_preimages_equal c : call_validb c = true ->
+  exists pre, call_client_preimage c = Some pre /\ call_contract_preimage c = Some pre.
+Proof.
+  unfold call_validb. intros H. repeat (apply andb_true_iff in H as [H ?]).
+  assert (Hx : h_x c < two256) by lia. assert (Hy : h_y c < two256) by lia.
+  unfold call_client_preimage, call_contract_preimage.
+  rewrite (pubkey_chain_format_ok _ _ Hx Hy).
+  destruct (h_op c).
+  1-3: (eexists; split; [|reflexivity];
+        unfold client_sig_preimage, marshal_uncompressed, contract_sig_preimage;
+        replace (h_x c <? two256) with true by lia; replace (h_y c <? two256) with true by lia;
+        cbn [andb tl]; rewrite key64_length; cbn [N.eqb Pos.eqb];
+        rewrite go_pack_eq; unfold start_word_value;
+        replace (h_start c <? 2 ^ 63) with true by lia; reflexivity).
+  1-2: (eexists; split; [|reflexivity];
+        unfold client_claim_preimage, marshal_uncompressed, contract_claim_preimage, wallet_x, wallet_y,
+          dummy_claim;
+        replace (h_x c <? two256) with true by lia; replace (h_y c <? two256) with true by lia;
+        cbn [andb tl k_inactive k_hbf]; rewrite key64_length; cbn [N.eqb Pos.eqb];
+        rewrite go_pack_eq, firstn_skipn; reflexivity).
+  eexists; split; [|reflexivity]. unfold client_wallet_preimage.
+  rewrite (pubkey_chain_format_ok _ _ Hx Hy). reflexivity.
+Qed.
+
+Lemma bytes_opt_eqb_some a b : bytes_opt_eqb a (Some b) = true -> a = Some b.
+Proof.
+  destruct a as [x|]; cbn [bytes_opt_eqb]; [|discriminate].
+  intros H. now rewrite (list_eqb_eq _ _ H).
+Qed.
+(* what a passing history says, call by call *)
+Definition hentry_good (e : hcall * hobs) : Prop :=
+  call_validb (fst e) = true ->
+  call_contract_preimage (fst e) = Some (b_pre (snd e))
+  /\ call_client_preimage (fst e) = Some (b_pre (snd e))
+  /\ b_some (snd e) = true /\ b_ok (snd e) = true /\ b_recovers (snd e) = true
+  /\ b_late (snd e) = true.
+Lemma hspec_ok_sound h : hspec_ok h = true -> Forall hentry_good h.
+Proof.
+  unfold hspec_ok. rewrite forallb_forall, Forall_forall. intros H e He.
+  specialize (H e He). destruct e as [c o]. unfold hentry_good. cbn [fst snd]. intros Hv.
+  unfold hspec_entry in H. rewrite Hv in H. cbn [negb] in H.
+  repeat (apply andb_true_iff in H as [H ?]).
+  apply bytes_opt_eqb_some in H3.
+  destruct (call_preimages_equal c Hv) as (pre & Hc & Hk).
+  rewrite Hk in H3. inversion H3; subst pre. rewrite Hk, Hc. tauto.
+Qed.
+(* the model's own history passes: an implementation that answers every call of a history with
+   Keccak256 of the model's bytes for THAT call passes [hspec_ok] and [hagree] *)
+Definition model_obs (c : hcall) : hobs :=
+  {| b_some := match call_client_preimage c with Some _ => true | None => false end;
+     b_pre := match call_client_preimage c with Some p => p | None => [] end;
+     b_ok := true; b_recovers := true; b_late := true |}.
+Lemma model_history_passes calls :
+  hspec_ok (map (fun c => (c, model_obs c)) calls) = true
+  /\ hagree (map (fun c => (c, model_obs c)) calls) = true.
+Proof.
+  unfold hspec_ok, hagree. split.
+  - rewrite forallb_forall. intros e He. apply in_map_iff in He as (c & <- & _).
+    unfold hspec_entry. destruct (call_validb c) eqn:Hv; cbn [negb]; [|reflexivity].
+    destruct (call_preimages_equal c Hv) as (pre & Hc & Hk).
+    unfold model_obs. rewrite Hc, Hk. cbn [b_some b_pre b_ok b_recovers b_late bytes_opt_eqb andb].
+    now rewrite list_eqb_refl.
+  - apply andb_true_iff. split.
+    + rewrite forallb_forall. intros e He. apply in_map_iff in He as (c & <- & _).
+      unfold hagree_entry, model_obs. destruct (call_client_preimage c) as [pre|]; cbn; auto.
+      now rewrite list_eqb_refl.
+    + rewrite history_is_map. unfold lenN. rewrite !map_length. apply N.eqb_refl.
+Qed.
+(* every field of the preimage decides the bytes: two results with the same key and start block
+   but another misbehaved list, another start block, another chain id, another key; claims with
+   another nonce / inactive list / heartbeat flag *)
+Example every_field_decides :
+  let base := {| h_op := HHash; h_chainid := 1; h_x := 7; h_y := 9; h_start := 100;
+                 h_list := [2]; h_nonce := 5; h_hbf := false |} in
+  let differs a b := negb (bytes_opt_eqb (call_client_preimage a) (call_client_preimage b)) in
+  differs base {| h_op := HHash; h_chainid := 1; h_x := 7; h_y := 9; h_start := 100;
+                  h_list := [2; 3]; h_nonce := 5; h_hbf := false |} = true
+  /\ differs base {| h_op := HHash; h_chainid := 1; h_x := 7; h_y := 9; h_start := 100;
+                     h_list := []; h_nonce := 5; h_hbf := false |} = true
+  /\ differs base {| h_op := HHash; h_chainid := 1; h_x := 7; h_y := 9; h_start := 101;
+                     h_list := [2]; h_nonce := 5; h_hbf := false |} = true
+  /\ differs base {| h_op := HHash; h_chainid := 2; h_x := 7; h_y := 9; h_start := 100;
+                     h_list := [2]; h_nonce := 5; h_hbf := false |} = true
+  /\ differs base {| h_op := HHash; h_chainid := 1; h_x := 8; h_y := 9; h_start := 100;
+                     h_list := [2]; h_nonce := 5; h_hbf := false |} = true
+  /\ differs {| h_op := HClaim; h_chainid := 1; h_x := 7; h_y := 9; h_start := 0;
+                h_list := [2]; h_nonce := 5; h_hbf := false |}
+             {| h_op := HClaim; h_chainid := 1; h_x := 7; h_y := 9; h_start := 0;
+                h_list := [2]; h_nonce := 6; h_hbf := false |} = true
+  /\ differs {| h_op := HClaim; h_chainid := 1; h_x := 7; h_y := 9; h_start := 0;
+                h_list := [2]; h_nonce := 5; h_hbf := false |}
+             {| h_op := HClaim; h_chainid := 1; h_x := 7; h_y := 9; h_start := 0;
+                h_list := [2]; h_nonce := 5; h_hbf := true |} = true
+  /\ differs {| h_op := HClaim; h_chainid := 1; h_x := 7; h_y := 9; h_start := 0;
+                h_list := [2]; h_nonce := 5; h_hbf := false |}
+             {| h_op := HClaim; h_chainid := 1; h_x := 7; h_y := 9; h_start := 0;
+                h_list := [2; 4]; h_nonce := 5; h_hbf := false |} = true.
+Proof. vm_compute. repeat split. Qed.
